@@ -2,21 +2,25 @@ use crate::report::{Evidence, Report};
 
 pub mod c01;
 pub mod c02;
+pub mod c03;
 pub mod c04;
 pub mod c06;
 pub mod c12;
 pub mod c13;
 pub mod c14;
+pub mod c17;
 
 pub fn lookup(id: &str) -> Option<fn(&Report, bool) -> Evidence> {
     Some(match id {
         "C01" => c01::run,
         "C02" => c02::run,
+        "C03" => c03::run,
         "C04" => c04::run,
         "C06" => c06::run,
         "C12" => c12::run,
         "C13" => c13::run,
         "C14" => c14::run,
+        "C17" => c17::run,
         _ => return None,
     })
 }
